@@ -1,10 +1,12 @@
 //! One module per property.
 use crate::engine::Check;
 
+pub mod c06;
 pub mod c19;
 
 pub fn all() -> Vec<Box<dyn Check>> {
 	vec![
+		Box::new(c06::C06),
 		Box::new(c19::C19),
 	]
 }
